@@ -568,6 +568,58 @@ func (f *File) Write(data []byte) (int, error) {
 	return written, nil
 }
 
+// Read, ReadAt, Seek, Stat, Sync, Truncate, Readdirnames: the rest of the *os.File surface code under
+// test may start using; each is one environment operation on the open descriptor.
+func (f *File) Read(p []byte) (int, error) {
+	if err := Begin("read", f.path); err != nil {
+		return 0, PathErr("read", f.path, err)
+	}
+	return f.f.Read(p)
+}
+
+func (f *File) ReadAt(p []byte, off int64) (int, error) {
+	if err := Begin("read", f.path); err != nil {
+		return 0, PathErr("read", f.path, err)
+	}
+	return f.f.ReadAt(p, off)
+}
+
+func (f *File) Seek(offset int64, whence int) (int64, error) { return f.f.Seek(offset, whence) }
+
+func (f *File) Stat() (os.FileInfo, error) {
+	if err := Begin("stat", f.path); err != nil {
+		return nil, PathErr("stat", f.path, err)
+	}
+	return f.f.Stat()
+}
+
+func (f *File) Sync() error {
+	if err := Begin("fsync", f.path); err != nil {
+		return PathErr("sync", f.path, err)
+	}
+	return f.f.Sync()
+}
+
+func (f *File) Truncate(size int64) error {
+	if err := Begin("truncate", f.path); err != nil {
+		return PathErr("truncate", f.path, err)
+	}
+	err := f.f.Truncate(size)
+	if err == nil {
+		Notify(filepath.Dir(f.path), filepath.Base(f.path), InModify)
+	}
+	return err
+}
+
+func (f *File) Readdirnames(n int) ([]string, error) {
+	if err := Begin("readdir", f.path); err != nil {
+		return nil, PathErr("readdirent", f.path, err)
+	}
+	return f.f.Readdirnames(n)
+}
+
+func (f *File) WriteString(s string) (int, error) { return f.Write([]byte(s)) }
+
 func (f *File) Close() error {
 	if f.closed {
 		return &os.PathError{Op: "close", Path: f.path, Err: os.ErrClosed}
